@@ -1532,29 +1532,28 @@ class FlowIR(object):
                     # VV: only match whole references (e.g. `A:ref` must not match inside `BA:ref`)
                     expression = re.compile(r"(?<![\w.#/-])%s(?![\w])((?:/[\w.*]+)+,*)?" % re.escape(ref))
                     orig_string = string
-                    m = expression.search(string)
-                    if m is not None:
-                        # Check if we have a path after the reference
-                        if m.group(1) is not None:
-                            path = m.group(1)
-                            # Now check if there is a comma at end of path - if there is join using a comma
-                            separator = " "
-    
-                            # VV: FIXME What if someone uses this hack in the `references` field ?
-                            if path[-1] == ",":
-                                separator = ","
-                                path = path[:-1]
-    
-                            replacement = ["%s%s" % (el, path) for el in translation_map[ref]]
-                            replacement = separator.join(replacement)
-                            string = expression.sub(lambda m, replacement=replacement: replacement, string)
-                        else:
-                            string = pattern_whole_reference(ref).sub(
-                                lambda m, ref=ref: " ".join(translation_map[ref]), string)
-                        if string != orig_string:
-                            # VV: if we replaced the Absolute ref we must skip replacing the relative ref becuase
-                            # we'll end up with stage<idx>.stage<idx>.<component name>
-                            break
+
+                    def expand(m, ref=ref):
+                        # Check if we have a path after this occurrence of the reference
+                        path = m.group(1)
+                        if path is None:
+                            return " ".join(translation_map[ref])
+
+                        # Now check if there is a comma at end of path - if there is join using a comma
+                        separator = " "
+
+                        # VV: FIXME What if someone uses this hack in the `references` field ?
+                        if path[-1] == ",":
+                            separator = ","
+                            path = path[:-1]
+
+                        return separator.join(["%s%s" % (el, path) for el in translation_map[ref]])
+
+                    string = expression.sub(expand, string)
+                    if string != orig_string:
+                        # VV: if we replaced the Absolute ref we must skip replacing the relative ref becuase
+                        # we'll end up with stage<idx>.stage<idx>.<component name>
+                        break
 
             return string
 
